@@ -301,7 +301,6 @@ func c05Wrappers(c *engine.Ctx, p *engine.Prog) {
 		seen[name] = true
 		key := name
 		n++
-		info := f.Info()
 		params := c05Params(f)
 		switch {
 		case c05Simple[name] != "":
@@ -311,31 +310,32 @@ func c05Wrappers(c *engine.Ctx, p *engine.Prog) {
 			c.Check("wrapper", key, f.Pos(), true, "not verified: "+c05Aux[name])
 		case name == "Fsub32":
 			// fadd32(f, Fneg32(g))
-			ok, why := false, "body must be `return fadd32(f, Fneg32(g))`"
-			if r := c05SoleReturn(f); r != nil {
-				if call, cn := gvaCallee(info, r); cn == c05SF+".fadd32" && len(call.Args) == 2 && len(params) == 2 &&
-					engine.ObjOf(info, call.Args[0]) == params[0] {
-					if neg, nn := gvaCallee(info, call.Args[1]); nn == c05SF+".Fneg32" && len(neg.Args) == 1 && engine.ObjOf(info, neg.Args[0]) == params[1] {
+			ok, why := false, "returned value must be fadd32(f, Fneg32(g))"
+			if r := gvaSoleReturn(f); r != nil && len(params) == 2 {
+				t := gvaNorm(f, r, nil, gvaNormOpt{}, 0)
+				p0, p1 := (&gvaTerm{Kind: "obj", Obj: params[0]}).String(), (&gvaTerm{Kind: "obj", Obj: params[1]}).String()
+				if t.Kind == "call" && t.Name == c05SF+".fadd32" && len(t.Args) == 2 && t.Args[0].String() == p0 {
+					if ng := t.Args[1]; ng.Kind == "call" && ng.Name == c05SF+".Fneg32" && len(ng.Args) == 1 && ng.Args[0].String() == p1 {
 						ok = true
 					}
 				}
 			}
 			c.Check("wrapper", key, f.Pos(), ok, why)
 		case name == "Fneg32":
-			ok, why := false, "body must be `return f ^ signbit` with signbit == 1<<31"
-			if r := c05SoleReturn(f); r != nil {
-				if b, isb := ast.Unparen(r).(*ast.BinaryExpr); isb && b.Op == token.XOR && len(params) == 1 {
-					x, y := b.X, b.Y
-					if engine.ObjOf(info, y) == params[0] {
+			ok, why := false, "returned value must be `f ^ signbit` with signbit == 1<<31"
+			if r := gvaSoleReturn(f); r != nil && len(params) == 1 {
+				t := gvaNorm(f, r, nil, gvaNormOpt{}, 0)
+				p0 := (&gvaTerm{Kind: "obj", Obj: params[0]}).String()
+				if t.Kind == "binop" && t.Name == "^" && len(t.Args) == 2 {
+					x, y := t.Args[0], t.Args[1]
+					if y.String() == p0 {
 						x, y = y, x
 					}
-					if engine.ObjOf(info, x) == params[0] {
-						if tv, has := info.Types[y]; has && tv.Value != nil {
-							if v, exact := constant.Uint64Val(constant.ToInt(tv.Value)); exact && v == 1<<31 {
-								ok = true
-							} else {
-								why = fmt.Sprintf("sign-bit constant is %s, want 2147483648", tv.Value.ExactString())
-							}
+					if x.String() == p0 && y.Kind == "const" {
+						if y.Name == "2147483648" {
+							ok = true
+						} else {
+							why = "sign-bit constant is " + y.Name + ", want 2147483648"
 						}
 					}
 				}
@@ -381,74 +381,68 @@ func c05Params(f *engine.Fn) []types.Object {
 	return out
 }
 
-// c05SoleReturn: the body is a single `return e`.
-func c05SoleReturn(f *engine.Fn) ast.Expr {
-	if len(f.Body.List) != 1 {
-		return nil
-	}
-	r, ok := f.Body.List[0].(*ast.ReturnStmt)
-	if !ok || len(r.Results) != 1 {
-		return nil
-	}
-	return r.Results[0]
-}
-
 func c05IsForward(f *engine.Fn, target string, params []types.Object) (bool, string) {
-	r := c05SoleReturn(f)
+	r := gvaSoleReturn(f)
 	if r == nil {
-		return false, "body is not a single return of a call"
+		return false, "function does not have a single return of one value"
 	}
-	call, cn := gvaCallee(f.Info(), r)
-	if call == nil || cn != c05SF+"."+target {
-		return false, "must forward to " + target + ", forwards to `" + cn + "`"
+	t := gvaNorm(f, r, nil, gvaNormOpt{}, 0)
+	if t.Kind != "call" || t.Name != c05SF+"."+target {
+		return false, "must forward to " + target + ", returns `" + t.Kind + " " + t.Name + "`"
 	}
-	if len(call.Args) != len(params) {
+	if len(t.Args) != len(params) {
 		return false, "argument count differs from parameter count"
 	}
-	for i, a := range call.Args {
-		if engine.ObjOf(f.Info(), a) != params[i] {
+	for i, a := range t.Args {
+		if a.String() != (&gvaTerm{Kind: "obj", Obj: params[i]}).String() {
 			return false, fmt.Sprintf("argument %d is not parameter %d (order changed or expression inserted)", i, i)
 		}
 	}
 	return true, "forwards parameters in order to " + target
 }
 
-// c05DerivedCmp: `cmp, nan := fcmp64(F(f), F(g)); return <pred over cmp> && !nan`
-// where pred holds exactly for cmp ∈ {-1} (lt) or {-1,0} (le).
+// c05DerivedCmp: `cmp, nan := fcmp64(F(f), F(g)); return <pred over cmp, nan>`
+// where pred holds exactly on the ordered cases: cmp ∈ {-1} (lt) or {-1,0} (le), nan false.
 func c05DerivedCmp(f *engine.Fn, params []types.Object, is32, le bool) (bool, string) {
 	info := f.Info()
-	if len(f.Body.List) != 2 || len(params) != 2 {
-		return false, "body must be `cmp, nan := fcmp64(…); return …`"
+	if len(params) != 2 {
+		return false, "expected two parameters"
 	}
-	as, ok := f.Body.List[0].(*ast.AssignStmt)
-	if !ok || len(as.Lhs) != 2 || len(as.Rhs) != 1 {
-		return false, "first statement must bind (cmp, nan) from fcmp64"
+	var as *ast.AssignStmt
+	engine.InspectBody(f, func(n ast.Node) {
+		if x, ok := n.(*ast.AssignStmt); ok && len(x.Lhs) == 2 && len(x.Rhs) == 1 {
+			if _, cn := gvaCallee(info, x.Rhs[0]); cn == c05SF+".fcmp64" {
+				as = x
+			}
+		}
+	})
+	if as == nil {
+		return false, "no `cmp, nan := fcmp64(…)` binding"
 	}
-	call, cn := gvaCallee(info, as.Rhs[0])
-	if cn != c05SF+".fcmp64" || len(call.Args) != 2 {
-		return false, "comparison must come from fcmp64"
+	ct := gvaNorm(f, as.Rhs[0], nil, gvaNormOpt{}, 0)
+	if len(ct.Args) != 2 {
+		return false, "comparison must come from fcmp64(f, g)"
 	}
-	for i, a := range call.Args {
+	for i, a := range ct.Args {
 		if is32 {
-			w, wn := gvaCallee(info, a)
-			if wn != c05SF+".f32to64" || len(w.Args) != 1 {
+			if a.Kind != "call" || a.Name != c05SF+".f32to64" || len(a.Args) != 1 {
 				return false, "32-bit operands must be widened with f32to64"
 			}
-			a = w.Args[0]
+			a = a.Args[0]
 		}
-		if engine.ObjOf(info, a) != params[i] {
+		if a.String() != (&gvaTerm{Kind: "obj", Obj: params[i]}).String() {
 			return false, fmt.Sprintf("operand %d of fcmp64 is not parameter %d", i, i)
 		}
 	}
 	cmpO, nanO := engine.ObjOf(info, as.Lhs[0]), engine.ObjOf(info, as.Lhs[1])
-	r, ok := f.Body.List[1].(*ast.ReturnStmt)
-	if !ok || len(r.Results) != 1 {
-		return false, "second statement must be the return"
+	ret := gvaSoleReturn(f)
+	if ret == nil {
+		return false, "function does not have a single return"
 	}
 	// evaluate the returned boolean for cmp ∈ {-1,0,1} × nan ∈ {false,true}
 	for _, cv := range []int64{-1, 0, 1} {
 		for _, nv := range []bool{false, true} {
-			got, okEval := c05EvalBool(info, r.Results[0], cmpO, nanO, cv, nv)
+			got, okEval := c05EvalBool(info, ret, cmpO, nanO, cv, nv)
 			if !okEval {
 				return false, "return expression is not a boolean formula over cmp and nan that the checker can evaluate"
 			}
@@ -555,85 +549,107 @@ func c05DispatchRule(c *engine.Ctx, p *engine.Prog) {
 	c.Floor("vm-float-dispatch", n, 24)
 }
 
+// c05Inline: unexported gnolang helpers may be looked through (never softfloat itself).
+func c05Inline(h *engine.Fn) bool {
+	return engine.Rel(h.Pkg.PkgPath) == gvaGno && h.Obj != nil && !h.Obj.Exported()
+}
+
+var c05Opt = gvaNormOpt{Inline: c05Inline, ZeroReassig: true}
+
+// c05CheckFloatClause: the value stored into the left operand with SetFloatW
+// (or returned, for comparisons) is softfloat.<want> applied to the W-wide bit
+// patterns of (left, right). Hoisted locals and single-return helpers are
+// looked through; other statements in the case do not matter.
 func c05CheckFloatClause(f *engine.Fn, cc *ast.CaseClause, d c05Disp, width, want string) (bool, string) {
 	info := f.Info()
 	if len(cc.List) != 1 {
 		return false, "float case shares its clause with another type"
 	}
-	if len(cc.Body) != 1 {
-		return false, fmt.Sprintf("float case has %d statements, expected exactly one", len(cc.Body))
+	left, right := "", ""
+	if ps := gvaTVParams(f); len(ps) >= 2 {
+		left, right = (&gvaTerm{Kind: "obj", Obj: ps[0]}).String(), (&gvaTerm{Kind: "obj", Obj: ps[1]}).String()
 	}
-	var opCall ast.Expr
-	switch st := cc.Body[0].(type) {
-	case *ast.ReturnStmt:
-		if d.shape != "ret2" || len(st.Results) != 1 {
-			return false, "unexpected return in float case"
-		}
-		opCall = st.Results[0]
-	case *ast.ExprStmt:
-		if d.shape == "ret2" {
-			return false, "comparison case must return the softfloat result directly"
-		}
-		acc, recv := gvaTVAccessor(info, st.X)
-		if acc != "SetFloat"+width {
-			return false, "result must be stored with SetFloat" + width + ", found `" + acc + "`"
-		}
-		if o := gvaRootObj(info, recv); o == nil || o.Name() != d.lv {
-			return false, "result stored into something other than the left operand"
-		}
-		opCall = st.X.(*ast.CallExpr).Args[0]
-	default:
-		return false, "unrecognised statement in float case"
+	type res struct {
+		val  *gvaTerm
+		recv string
 	}
-	call, cn := gvaCallee(info, opCall)
-	if call == nil || cn != c05SF+"."+want {
-		return false, "must call softfloat." + want + ", calls `" + cn + "`"
-	}
-	getArg := func(a ast.Expr, who string) string {
-		acc, recv := gvaTVAccessor(info, a)
-		if acc != "GetFloat"+width {
-			return "operand is not GetFloat" + width + "()"
+	var results []res
+	otherSet := ""
+	gvaWalkClause(cc, func(n ast.Node) bool {
+		switch x := n.(type) {
+		case *ast.ReturnStmt:
+			if d.shape == "ret2" && len(x.Results) == 1 {
+				results = append(results, res{val: gvaNorm(f, x.Results[0], nil, c05Opt, 0)})
+			}
+		case *ast.CallExpr:
+			if name, recv := gvaTVAccessor(info, x); strings.HasPrefix(name, "Set") && len(x.Args) == 1 && d.shape != "ret2" {
+				if name != "SetFloat"+width {
+					otherSet = name
+					return true
+				}
+				results = append(results, res{val: gvaNorm(f, x.Args[0], nil, c05Opt, 0), recv: gvaNorm(f, recv, nil, c05Opt, 0).String()})
+			}
 		}
-		if o := gvaRootObj(info, recv); o == nil || o.Name() != who {
-			return "operand read from the wrong value (want " + who + ")"
+		return true
+	})
+	if otherSet != "" {
+		return false, "float case stores with " + otherSet + ", want SetFloat" + width
+	}
+	if len(results) == 0 {
+		return false, "no value is stored with SetFloat" + width + " / returned in the float case"
+	}
+	reads := func(t *gvaTerm, who string) string {
+		if t == nil || t.Kind != "acc" || t.Name != "GetFloat"+width || len(t.Args) != 1 {
+			return "operand is not GetFloat" + width + "() (found " + t.String() + ")"
+		}
+		if t.Args[0].String() != who {
+			return "operand read from the wrong value"
 		}
 		return ""
 	}
-	switch d.shape {
-	case "set2", "ret2":
-		if len(call.Args) != 2 {
-			return false, "expected two operands"
+	for _, r := range results {
+		l := left
+		if l == "" {
+			l = r.recv
+		} else if d.shape != "ret2" && r.recv != l {
+			return false, "result stored into something other than the left operand"
 		}
-		if e := getArg(call.Args[0], d.lv); e != "" {
-			return false, "left " + e
+		t := r.val
+		if t.Kind != "call" || t.Name != c05SF+"."+want {
+			return false, "must be softfloat." + want + "(…), found " + t.Kind + " " + t.Name
 		}
-		if e := getArg(call.Args[1], d.rv); e != "" {
-			return false, "right " + e
-		}
-	case "set1":
-		if len(call.Args) != 1 {
-			return false, "expected one operand"
-		}
-		if e := getArg(call.Args[0], d.lv); e != "" {
-			return false, e
-		}
-	case "setc":
-		if len(call.Args) != 2 {
-			return false, "expected two operands"
-		}
-		if e := getArg(call.Args[0], d.lv); e != "" {
-			return false, "left " + e
-		}
-		one, on := gvaCallee(info, call.Args[1])
-		if on != c05SF+".Fintto"+width || len(one.Args) != 1 {
-			return false, "increment must be softfloat.Fintto" + width + "(1)"
-		}
-		tv := info.Types[one.Args[0]]
-		if tv.Value == nil || tv.Value.ExactString() != "1" {
-			return false, "increment constant is not 1"
+		switch d.shape {
+		case "set2", "ret2":
+			if len(t.Args) != 2 {
+				return false, "expected two operands"
+			}
+			if e := reads(t.Args[0], l); e != "" {
+				return false, "left " + e
+			}
+			if e := reads(t.Args[1], right); e != "" {
+				return false, "right " + e
+			}
+		case "set1":
+			if len(t.Args) != 1 {
+				return false, "expected one operand"
+			}
+			if e := reads(t.Args[0], l); e != "" {
+				return false, e
+			}
+		case "setc":
+			if len(t.Args) != 2 {
+				return false, "expected two operands"
+			}
+			if e := reads(t.Args[0], l); e != "" {
+				return false, "left " + e
+			}
+			one := t.Args[1]
+			if one.Kind != "call" || one.Name != c05SF+".Fintto"+width || len(one.Args) != 1 || one.Args[0].Kind != "const" || one.Args[0].Name != "1" {
+				return false, "increment must be softfloat.Fintto" + width + "(1)"
+			}
 		}
 	}
-	return true, "calls softfloat." + want + " on (left,right) bit patterns"
+	return true, "softfloat." + want + " on (left,right) bit patterns"
 }
 
 // ---- (4) conversion table ----
@@ -705,186 +721,64 @@ func c05ConvRule(c *engine.Ctx, p *engine.Prog) {
 	c.Floor("conv-table", n, 42)
 }
 
-// c05CheckConv: in the clause (outside function literals = outside the
-// constant-validation closure) exactly one softfloat call chain produces the
-// value stored by Set<To>; it is `want`, fed by Get<From> possibly through a
-// value-preserving integer widening, and narrowed only by a Go integer
-// conversion to the target's Go type.
+// c05CheckConv: every value stored in the clause (outside the constant
+// validation closure) is stored with Set<To> and is softfloat.<want> applied to
+// Get<From> — possibly through value-preserving integer widenings before and an
+// integer narrowing after the softfloat call. Locals are looked through.
 func c05CheckConv(f *engine.Fn, cc *ast.CaseClause, from, to, want string) (bool, string) {
 	info := f.Info()
-	var sfCalls []*ast.CallExpr
-	var sets []*ast.CallExpr
-	var gets []string
-	bad := ""
+	nset := 0
+	why := ""
 	gvaWalkClause(cc, func(n ast.Node) bool {
 		call, ok := n.(*ast.CallExpr)
 		if !ok {
 			return true
 		}
-		if _, cn := gvaCallee(info, call); strings.HasPrefix(cn, c05SF+".") {
-			sfCalls = append(sfCalls, call)
+		name, _ := gvaTVAccessor(info, call)
+		if !strings.HasPrefix(name, "Set") || len(call.Args) != 1 {
+			return true
 		}
-		if acc, _ := gvaTVAccessor(info, call); acc != "" {
-			switch {
-			case strings.HasPrefix(acc, "Set"):
-				sets = append(sets, call)
-				if acc != "Set"+c05KindAcc[to] {
-					bad = "stores with " + acc + ", want Set" + c05KindAcc[to]
-				}
-			case strings.HasPrefix(acc, "Get"):
-				gets = append(gets, acc)
-				if acc != "Get"+c05KindAcc[from] {
-					bad = "reads with " + acc + ", want Get" + c05KindAcc[from]
-				}
+		nset++
+		if name != "Set"+c05KindAcc[to] {
+			why = "stores with " + name + ", want Set" + c05KindAcc[to]
+			return true
+		}
+		t := gvaNorm(f, call.Args[0], nil, c05Opt, 0)
+		for t.Kind == "conv" && len(t.Args) == 1 {
+			if _, _, isInt := gvaIntBits(t.Name); !isInt {
+				why = "stored value passes through a non-integer conversion to " + t.Name
+				return true
 			}
+			t = t.Args[0]
+		}
+		if t.Kind != "call" || t.Name != c05SF+"."+want {
+			why = "converts with `" + t.Kind + " " + t.Name + "`, table says softfloat." + want
+			return true
+		}
+		if len(t.Args) != 1 {
+			why = "softfloat conversion with " + fmt.Sprint(len(t.Args)) + " operands"
+			return true
+		}
+		x := t.Args[0]
+		for x.Kind == "conv" && len(x.Args) == 1 {
+			if !gvaWideningConv(x.Src, x.Name) {
+				why = "softfloat operand passes through a value-changing conversion " + x.Src + "→" + x.Name
+				return true
+			}
+			x = x.Args[0]
+		}
+		if x.Kind != "acc" || x.Name != "Get"+c05KindAcc[from] {
+			why = "softfloat operand is not Get" + c05KindAcc[from] + "() (found " + x.Kind + " " + x.Name + ")"
 		}
 		return true
 	})
-	if bad != "" {
-		return false, bad
+	if why != "" {
+		return false, why
 	}
-	if len(sets) != 1 {
-		return false, fmt.Sprintf("%d Set calls, expected one", len(sets))
-	}
-	if len(sfCalls) != 1 {
-		return false, fmt.Sprintf("%d softfloat calls outside the constant-validation closure, expected one", len(sfCalls))
-	}
-	_, cn := gvaCallee(info, sfCalls[0])
-	if cn != c05SF+"."+want {
-		return false, "converts with `" + cn + "`, table says softfloat." + want
-	}
-	// argument of the softfloat call: Get<From>() possibly through widening conversions
-	arg := sfCalls[0].Args[0]
-	for {
-		if acc, _ := gvaTVAccessor(info, arg); acc != "" {
-			break
-		}
-		conv, okc := ast.Unparen(arg).(*ast.CallExpr)
-		if !okc || len(conv.Args) != 1 || !info.Types[conv.Fun].IsType() {
-			return false, "softfloat operand is not the source accessor (possibly through an integer widening)"
-		}
-		src, dst := info.TypeOf(conv.Args[0]), info.TypeOf(conv.Fun)
-		if !c05Widening(src, dst) {
-			return false, "softfloat operand passes through a value-changing conversion " + src.String() + "→" + dst.String()
-		}
-		arg = conv.Args[0]
-	}
-	// the stored value: x (defined from the softfloat call possibly through integer narrowing to the target Go type)
-	val := sets[0].Args[0]
-	def := c05DefOf(f, cc, val)
-	if def == nil {
-		return false, "cannot find the definition of the stored value"
-	}
-	e := def
-	for {
-		e = ast.Unparen(e)
-		if e == ast.Expr(sfCalls[0]) {
-			break
-		}
-		conv, okc := e.(*ast.CallExpr)
-		if !okc || len(conv.Args) != 1 || !info.Types[conv.Fun].IsType() {
-			return false, "stored value is not the softfloat result (optionally narrowed by one integer conversion)"
-		}
-		if b, okb := info.TypeOf(conv.Fun).Underlying().(*types.Basic); !okb || b.Info()&types.IsInteger == 0 {
-			return false, "stored value passes through a non-integer conversion"
-		}
-		e = conv.Args[0]
+	if nset == 0 {
+		return false, "no Set" + c05KindAcc[to] + " in the case"
 	}
 	return true, "softfloat." + want + " between Get" + c05KindAcc[from] + " and Set" + c05KindAcc[to]
-}
-
-// c05DefOf resolves `x` (an identifier defined by := in the clause) to its
-// right-hand side; tuple definitions (xp, _ := F64toint(…)) resolve to the call.
-func c05DefOf(f *engine.Fn, cc *ast.CaseClause, e ast.Expr) ast.Expr {
-	info := f.Info()
-	id, ok := ast.Unparen(e).(*ast.Ident)
-	if !ok {
-		return e
-	}
-	obj := info.ObjectOf(id)
-	var out ast.Expr
-	count := 0
-	gvaWalkClause(cc, func(n ast.Node) bool {
-		if as, ok := n.(*ast.AssignStmt); ok {
-			for i, l := range as.Lhs {
-				if engine.ObjOf(info, l) == obj {
-					count++
-					if len(as.Rhs) == len(as.Lhs) {
-						out = as.Rhs[i]
-					} else if len(as.Rhs) == 1 && i == 0 {
-						out = as.Rhs[0]
-					}
-				}
-			}
-		}
-		return true
-	})
-	if count != 1 {
-		// reassigned (e.g. the const -0 normalisation of Float64>Float32): accept only
-		// when every other assignment stores a constant zero
-		var first ast.Expr
-		okAll := true
-		gvaWalkClause(cc, func(n ast.Node) bool {
-			if as, ok := n.(*ast.AssignStmt); ok {
-				for i, l := range as.Lhs {
-					if engine.ObjOf(info, l) == obj && len(as.Rhs) == len(as.Lhs) {
-						if as.Tok == token.DEFINE {
-							first = as.Rhs[i]
-						} else if tv := info.Types[as.Rhs[i]]; tv.Value == nil || tv.Value.ExactString() != "0" {
-							okAll = false
-						}
-					}
-				}
-			}
-			return true
-		})
-		if okAll {
-			return first
-		}
-		return nil
-	}
-	return out
-}
-
-func c05Widening(src, dst types.Type) bool {
-	s, ok1 := src.Underlying().(*types.Basic)
-	d, ok2 := dst.Underlying().(*types.Basic)
-	if !ok1 || !ok2 || s.Info()&types.IsInteger == 0 || d.Info()&types.IsInteger == 0 {
-		return false
-	}
-	bits := func(b *types.Basic) (int, bool) {
-		switch b.Kind() {
-		case types.Int8:
-			return 8, true
-		case types.Int16:
-			return 16, true
-		case types.Int32:
-			return 32, true
-		case types.Int64, types.Int:
-			return 64, true
-		case types.Uint8:
-			return 8, false
-		case types.Uint16:
-			return 16, false
-		case types.Uint32:
-			return 32, false
-		case types.Uint64, types.Uint:
-			return 64, false
-		}
-		return 0, false
-	}
-	sb, ss := bits(s)
-	db, ds := bits(d)
-	if sb == 0 || db == 0 {
-		return false
-	}
-	switch {
-	case ss == ds:
-		return db >= sb
-	case !ss && ds:
-		return db > sb
-	}
-	return false // signed → unsigned changes negative values
 }
 
 // ---- (5) native float operations ----
